@@ -135,7 +135,7 @@ let show_item = function
 
 let show_res (fl : flags) (r : value res) : string =
   match r with
-  | Err e -> (match int_of_n e with 90 -> "ASSERT" | 91 -> "SEGV" | k -> "E" ^ string_of_int k)
+  | Err e -> "E" ^ string_of_int (int_of_n e)
   | Ok (VSet l) -> "N:" ^ String.concat "," (List.map show_item l)
   | Ok (VStr s) -> "S:" ^ hex s
   | Ok (VBool b) -> if b then "B:1" else "B:0"
@@ -144,29 +144,14 @@ let show_res (fl : flags) (r : value res) : string =
 
 (* the switches in the order in which they are put back; names are the known-finding tags (prefix "xpath-") *)
 let switches : (string * (flags -> flags)) list = [
-  ("skip-alldesc-axis", (fun f -> { f with f_skip = false }));
-  ("assert-text-hash", (fun f -> { f with f_texthash = false }));
-  ("alldesc-duplicate", (fun f -> { f with f_alldup = false }));
-  ("assert-step-on-non-nodeset", (fun f -> { f with f_nonset = false }));
-  ("assert-attribute-node", (fun f -> { f with f_attrnode = false }));
-  ("crash-sort-restart", (fun f -> { f with f_crash = false }));
-  ("assert-unsorted-child-step", (fun f -> { f with f_assert = false }));
-  ("fastpath-position-rhs", (fun f -> { f with f_fastpos = false }));
-  ("fastpath-nonstring-rhs", (fun f -> { f with f_fast = false }));
+  ("node-step-on-non-nodeset", (fun f -> { f with f_nonset = false }));
   ("cmp-canonize", (fun f -> { f with f_canon = false }));
-  ("cmp-nodeset-boolean", (fun f -> { f with f_cmpbool = false }));
   ("namespace-axis", (fun f -> { f with f_nsaxis = false }));
-  ("dslash-nodetype", (fun f -> { f with f_dslash = false }));
   ("text-nodes", (fun f -> { f with f_text = false }));
   ("root-matches-star", (fun f -> { f with f_rootstar = false }));
-  ("axis-preceding", (fun f -> { f with f_preceding = false }));
-  ("axis-following", (fun f -> { f with f_following = false }));
   ("predicate-position-global", (fun f -> { f with f_predglobal = false }));
-  ("predicate-number-trunc", (fun f -> { f with f_predtrunc = false }));
   ("string-value-indent", (fun f -> { f with f_strval = false }));
-  ("normalize-space-single-ws", (fun f -> { f with f_normsp = false }));
   ("string-bytes", (fun f -> { f with f_bytes = false }));
-  ("floor-ceiling-round", (fun f -> { f with f_floor = false }));
   ("string-to-number", (fun f -> { f with f_s2n = false }));
   ("number-to-string", (fun f -> { f with f_n2s = false }));
   ("long-double", (fun f -> { f with f_prec = spec_flags.f_prec }));
